@@ -746,6 +746,10 @@ func (ex *Exec) applyContract(st *State, c *Contract, fn *types.Func, recv *Val,
 			if a != nil && a.Sh != nil && a.Sh.IsLeaf() {
 				sorts = append(sorts, a.Sh.Leaf)
 				terms = append(terms, a.S)
+			} else if a != nil && a.Sh != nil && a.Sh.Kind == "slice" && a.kid("elems").Sh.IsLeaf() {
+				// slices of scalars contribute their length and contents
+				sorts = append(sorts, "Int", a.kid("elems").Sh.Leaf)
+				terms = append(terms, a.kid("len").S, a.kid("elems").S)
 			}
 		}
 		for i, r := range results {
